@@ -606,12 +606,16 @@ type c08ans struct {
 	retries int32 // handler.Retries
 	results map[string]int
 	objs    map[string]int
+	// lateMs > 0: the error answer is given at once, its handler's DECISION only lateMs later (the channel is empty when Do
+	// is called) — the token waits for it however long it takes, also past the task's own timeout
+	lateMs int
 	// further Do calls on the same request: right after the first one returned / after the engine has come to rest
 	extraNow, extraLate []c08ans
 }
 
 type c08engCase struct {
 	tag            string
+	timeoutMs      int      // > 0: olive:taskDefinition timeout of T (how long a request may stay unanswered)
 	td             int      // olive:taskDefinition retries of T
 	hist           []c08ans // answers to the requests of T, in order
 	down           []c08ans // answers to the requests of the task behind the gateway, in order (default: ok)
@@ -716,6 +720,17 @@ func c08engCases(tier string) []c08engCase {
 		a.results = map[string]int{"r1": 1, "u": 7}
 		a.objs = map[string]int{"o1": 6, "p": 4}
 		cs = append(cs, c08engCase{tag: "errres", hist: []c08ans{a, c08okAns(map[string]int{"r2": 8}, nil)}, errWithResults: true})
+	}
+	// 11. the handler decides LATE: the error answer comes at once, the decision 900 ms later — longer than the task's own
+	//     timeout of 400 ms, which bounds how long a REQUEST may stay unanswered, not how long a handler may think
+	for _, mode := range []int{3, 1, 2} {
+		a := c08errAns(mode, 2)
+		a.lateMs = 900
+		h := []c08ans{a}
+		if mode == 1 {
+			h = append(h, c08okAns(map[string]int{"r1": 1}, nil))
+		}
+		cs = append(cs, c08engCase{tag: "latehandler", timeoutMs: 400, hist: h})
 	}
 	// 9. conditions on the answered task's OWN outgoing flows read the result it has just stored
 	for _, x := range []int{1, 2, 0} {
@@ -825,7 +840,11 @@ func c08engXMLShape(shape string, td int) (string, map[string]string) {
 	return g.XML(), g.CondRPN
 }
 
-func c08engXML(td int) (string, map[string]string) {
+func c08engXML(td, timeoutMs int) (string, map[string]string) {
+	tmo := ""
+	if timeoutMs > 0 {
+		tmo = fmt.Sprintf(` timeout="%dms"`, timeoutMs)
+	}
 	c1 := &eng.Cond{Op: "eq", Var: "r1", K: 1}
 	c2 := &eng.Cond{Op: "eq", Var: "u", K: 7}
 	rpn := map[string]string{c1.Expr(): c1.RPN(), c2.Expr(): c2.RPN()}
@@ -844,7 +863,7 @@ func c08engXML(td int) (string, map[string]string) {
 <bpmn:process id="proc" isExecutable="true">
 <bpmn:startEvent id="start"><bpmn:outgoing>f1</bpmn:outgoing></bpmn:startEvent>
 <bpmn:serviceTask id="T"><bpmn:extensionElements>
-` + fmt.Sprintf(`<olive:taskDefinition type="service" retries="%d"/>`, td) + `
+` + fmt.Sprintf(`<olive:taskDefinition type="service" retries="%d"%s/>`, td, tmo) + `
 <olive:results><olive:field name="r1" type="integer"/><olive:field name="r2" type="integer"/><olive:field name="rs" type="string"/></olive:results>
 <olive:dataOutput name="o1" targetRef="o1"/>
 </bpmn:extensionElements><bpmn:incoming>f1</bpmn:incoming><bpmn:outgoing>f2</bpmn:outgoing></bpmn:serviceTask>
@@ -937,7 +956,18 @@ func c08engAnswer(in *eng.Inst, q *eng.Req, a c08ans) {
 			opts = append(opts, bpmn.DoWithErr(fmt.Errorf("boom")))
 		} else {
 			ch := make(chan bpmn.ErrHandler, 1)
-			ch <- bpmn.ErrHandler{Mode: bpmn.ErrHandleMode(a.mode), Retries: a.retries}
+			if a.lateMs > 0 {
+				go func() {
+					time.Sleep(time.Duration(a.lateMs) * time.Millisecond)
+					ch <- bpmn.ErrHandler{Mode: bpmn.ErrHandleMode(a.mode), Retries: a.retries}
+				}()
+				defer func() {
+					// nothing may happen to the token before the decision is there
+					time.Sleep(time.Duration(a.lateMs+150) * time.Millisecond)
+				}()
+			} else {
+				ch <- bpmn.ErrHandler{Mode: bpmn.ErrHandleMode(a.mode), Retries: a.retries}
+			}
 			opts = append(opts, bpmn.DoWithErrHandle(fmt.Errorf("boom"), ch))
 		}
 		if a.results != nil {
@@ -997,7 +1027,7 @@ func c08plan(h []c08ans) string {
 }
 
 func c08engRun(out *rec.Out, c c08engCase, stats map[string]int) {
-	xmlText, rpn := c08engXML(c.td)
+	xmlText, rpn := c08engXML(c.td, c.timeoutMs)
 	if c.shape != "" {
 		xmlText, rpn = c08engXMLShape(c.shape, c.td)
 	}
